@@ -184,6 +184,11 @@ def run(R):
                                       f'start = {render(e, "sugar")}\nX = "a" | "ba"\nignored " "\n',
                                       f'ignored Sp = " "\nstart = {render(e, "sugar")}\nX = "a" | "ba"\n'],
                   texts=[t.replace(',', ' ') for t in TX], structural=False)
+    # a bare expression versus `start = expr`, also when the expression BEGINS with inline Python (which is a statement
+    # form of the grammar language as well)
+    for e in ['`1` >> "a"', '`None` >> ("a" | "b")', '[`1`, "a"]', '"a" >> `1`', '`1`', '("a")', '"a" | "b"', '"a"* << "b"', '/[ab]+/ |> `len`',
+              'let n = `1` in "a"{n}', '`2` >> "a"{2}']:
+        add_group('bare-expression', [f'start = {e}\n', f'{e}\n', f'{e}'], texts=['', 'a', 'b', 'aa', 'ab', 'aab'], structural=False)
     for _ in range(150 if quick else 3000):
         flat, grouped = flat_expr(rnd)
         add_group('grouping', [f'start = {flat}\nX = "a" | "ba"\n', f'start = {grouped}\nX = "a" | "ba"\n'])
